@@ -129,3 +129,25 @@ Theorem C11_mux_needs_trex_refuted :
   exists f t sizes tx, read_trun f None t sizes <> read_trun f (Some tx) t sizes.
 Proof. exact read_trun_needs_trex_refuted. Qed.
 Print Assumptions C11_mux_needs_trex_refuted.
+
+(* ---- decode times when the written pieces are read back ----
+   A fragment stores one base decode time (tfdt) and durations.  For an input whose decode times are
+   contiguous (dts(k+1) = dts(k) + dur(k)) the pieces read back are exactly the input; an input with a
+   decode-time gap between two fragments is NOT conserved when both sides land in one output piece. *)
+Theorem C11_resegment_read_back : forall (d : N) (ss : list fsample) (segs : list (list fsample)),
+  contiguous_list ss = true -> resegment d ss = Ok segs -> concat (map retime_seg segs) = ss.
+Proof. exact resegment_read_back. Qed.
+Print Assumptions C11_resegment_read_back.
+
+Theorem C11_fragmentify_read_back : forall (duration : N) (frags : list (list fsample)),
+  contiguous_list (concat frags) = true ->
+  exists outs, fragmentify duration frags = Ok outs /\ concat (map retime_seg outs) = concat frags.
+Proof. exact fragmentify_read_back. Qed.
+Print Assumptions C11_fragmentify_read_back.
+
+Theorem C11_read_back_gap_refuted :
+  exists d ss segs outs,
+    resegment d ss = Ok segs /\ concat (map retime_seg segs) <> ss /\
+    fragmentify d [firstn 2 ss; skipn 2 ss] = Ok outs /\ concat (map retime_seg outs) <> ss.
+Proof. exact read_back_gap_refuted. Qed.
+Print Assumptions C11_read_back_gap_refuted.
